@@ -31,6 +31,7 @@ type evalEnv struct {
 	qn   *int
 	inOld bool
 	point ssa.Instruction // program point (at-eval clauses): names resolve to the value in use here
+	asks  *[]*Term        // terms whose model values help to replay a refutation (the bigval(..) terms of the clause)
 }
 
 func (en *evalEnv) with(vars map[string]ev) *evalEnv {
@@ -631,6 +632,22 @@ func (en *evalEnv) call(x *ECall) ev {
 			return ev{False, nil}
 		}
 		return ev{Eq(App(SInt, "uf_and", a, b), b), nil}
+	case "bigval":
+		// bigval(x): the mathematical integer held by the *big.Int / *slip.Bignum x (value model of math/big)
+		a := arg(0)
+		t := a.v.(*Term)
+		id := t
+		if t.Sort == SObj {
+			id = App(SInt, "o-int", t)
+		}
+		r := e.bigGet(en.st, id)
+		if en.asks != nil && !strings.Contains(id.S, "q!") {
+			*en.asks = append(*en.asks, r)
+		}
+		return ev{r, nil}
+	case "abs":
+		t := en.intTerm(x.Args[0])
+		return ev{Ite(Lt(t, IntLit(0)), App(SInt, "-", t), t), nil}
 	case "mine":
 		// mine(x): the object x refers to was allocated by this activation, or the caller handed it over
 		// (it is not visible to anyone else); family O
@@ -818,8 +835,10 @@ func (e *Exec) atReturn(fr *Frame, st *State, res []Value, c *Contract) {
 		en.point = e.curIn // names that are not parameters resolve to the value in use at this return
 		en.inOld = true    // parameter names denote the entry values (Gobra style); locals their value at the return
 		e.bindResults(en, fr.fn, res)
+		var asks []*Term
+		en.asks = &asks
 		g := e.evalClause(en, cl)
-		e.oblige(st, "post", clauseName(cl, i), g, "")
+		e.oblige(st, "post", clauseName(cl, i), g, "", asks...)
 	}
 	if c.Options["frame-arrays"] {
 		// frame condition: every backing array that existed at entry has its entry contents
